@@ -22,7 +22,7 @@ EXTENDS Naturals, Sequences, FiniteSets, TLC
 CONSTANTS
     NArr,       \* number of events the server sends
     App,        \* the application's calls: <<[op |-> "receive", to |-> BOOLEAN]>> / [op |-> "emit", to |-> FALSE]
-    Conn,       \* what happens to the connection: <<"drop", "reconnect", "final", "giveup">>
+    Conn,       \* what happens to the connection: <<"drop", "reconnect", "refail", "final", "giveup">>
     Atomic,     \* FALSE: threads, pre-emption at every Event / buffer operation (SimpleClient)
                 \* TRUE: asyncio (AsyncSimpleClient): a task runs until it awaits a clear
                 \*       event; the handler is atomic; set() latches the waiter's wake-up
@@ -103,7 +103,12 @@ StepC(s) ==
                    [] op = "final"     -> [s EXCEPT !.eioUp = FALSE, !.pcC = "conn.clear"]
                    [] op = "reconnect" -> [s EXCEPT !.eioUp = TRUE, !.nsUp = TRUE, !.connected = TRUE,
                                                     !.pcC = "conn.set"]
+                   \* a reconnection attempt that FAILS (nothing changes, nobody is told), then,
+                   \* as a step of its own, the attempt that succeeds
+                   [] op = "refail"    -> [s EXCEPT !.pcC = "c.retry"]
                    [] op = "giveup"    -> [s EXCEPT !.connected = FALSE, !.pcC = "conn.set"])
+      [] s.pcC = "c.retry" ->
+            [s EXCEPT !.eioUp = TRUE, !.nsUp = TRUE, !.connected = TRUE, !.pcC = "conn.set"]
       [] s.pcC = "conn.clear" ->
             (IF Conn[s.ck + 1] = "drop"
              THEN [s EXCEPT !.connEv = FALSE, !.eioUp = FALSE, !.nsUp = FALSE,
@@ -112,7 +117,7 @@ StepC(s) ==
       [] s.pcC = "conn.set" ->
             [s EXCEPT !.connEv = TRUE,
                       !.woken = @ \/ (Atomic /\ s.pcA = "conn.wait" /\ ~s.connEv),
-                      !.nsUp = IF Conn[s.ck + 1] = "reconnect" THEN TRUE ELSE FALSE,
+                      !.nsUp = IF Conn[s.ck + 1] \in {"reconnect", "refail"} THEN TRUE ELSE FALSE,
                       !.ck = @ + 1, !.pcC = NextC(s)]
 
 (* ---- scheduler choices -------------------------------------------------- *)
@@ -131,7 +136,7 @@ RECURSIVE SettleA(_), SettleH(_), SettleC(_)
 SettleA(s) == IF s.pcA = "done" \/ (s.pcA \in {"conn.wait", "inp.wait"} /\ BlockedA(s)) THEN s
               ELSE LET s2 == StepA(s, "run") IN IF s2 = s THEN s ELSE SettleA(s2)
 SettleH(s) == IF s.pcH \in {"done", "h.arrive"} THEN s ELSE SettleH(StepH(s))
-SettleC(s) == IF s.pcC \in {"done", "c.next"} THEN s ELSE SettleC(StepC(s))
+SettleC(s) == IF s.pcC \in {"done", "c.next", "c.retry"} THEN s ELSE SettleC(StepC(s))
 
 Do(s, a) == IF ~Atomic THEN Do1(s, a)
             ELSE CASE a.th = "A" -> SettleA(StepA(s, a.c))
